@@ -137,3 +137,33 @@ Example C03_example :
   let d2 := [([97]%N, VInt64 (- 2 ^ 63)); ([98]%N, VDoc [([99]%N, VArr [VBool false; VString [121]%N; VDouble 0])])] in
   inputs_ok [d1; d2] [0; 0] /\ Forall (fun d => doc_has_ts_seconds d = false) [d1; d2].
 Proof. exact codec_example. Qed.
+
+(* ---- oracle = theorem (encode direction): the executable oracle c03_encode_verdict of
+   Spec/FtdcSpec.v, which the driver ocaml/c03_run.ml evaluates on the outer documents the
+   implementation emitted (zlib replaced by the trivial codec triv_deflate / triv_inflate
+   the oracle runs with), answers COk on what the MODEL of the collectors emits, for every
+   input satisfying the hypotheses of C03_encode_canonical, whenever the payloads of the
+   partition of that theorem stay below 4 GiB (the hypothesis under which the
+   specification's decoder is claimed to read them): decodable, every header exact,
+   recovered samples = metric vectors of the inputs, reference samples verbatim, payloads
+   and length prefixes canonical (proofs in Proofs/OracleSoundC03.v).  The decode
+   direction has no boolean oracle: the driver compares the readers' observations with
+   table_columns / table_docs of the specification's own decoding, which is the statement
+   of C03_decode_complete itself ---- *)
+From FV.Proofs Require OracleSoundC03.
+
+(* the trivial codec is a zlib in the sense of the section above *)
+Theorem C03_triv_codec : forall p, triv_inflate (triv_deflate p) = Some p.
+Proof. exact OracleSoundC03.triv_inflate_deflate. Qed.
+Print Assumptions C03_triv_codec.
+
+Theorem C03_oracle_sound : forall k n docs nows,
+  compressing k = true -> 1 <= n < 2 ^ 31 -> inputs_ok docs nows -> fits k n docs ->
+  let ds := emitted (snd (fst (emit triv_deflate k n docs nows))) in
+  exists groups,
+    concat groups = docs /\ Forall2 (canon_of triv_deflate) ds groups /\
+    (Forall group_small groups ->
+     x_spec_decode_stream ds = Some (map group_table groups) /\
+     c03_encode_verdict docs ds = COk /\ c03_encode_ok docs ds = true).
+Proof. exact OracleSoundC03.c03_oracle_sound. Qed.
+Print Assumptions C03_oracle_sound.
